@@ -64,6 +64,17 @@ def gen_setup_cases(rng, quick):
         ext = [rng.randint(1, n[i]) for i in range(3)]
         ispg = rng.choice([75, 76, 80, 89, 92, 143, 146, 150, 168, 177, 195, 198, 207, 212, 213, 16, 19, 22, 5])
         lines.append('setup\tf %d %d %d 2 0 0 0 %d %d %d 1 2 3 %d 0 0 %d 1' % (*ext, *n, ispg, F.NAN_Z))
+    # the same with very small sampling along one or two axes and ANY space-group number: on such grids a symmetry mate
+    # leaves the window [-n, 2n) of index_n before any collision of mates makes the expansion throw
+    # (found on the unchanged tree: P 4/n, one stored point, sampling 3 x 1 x 1)
+    lines.append('setup\tf 1 1 1 2 0 0 0 3 1 1 1 2 3 85 0 0 %d 1' % F.NAN_Z)
+    for _ in range(400 if quick else 20000):
+        n = [rng.choice([1, 1, 2, 3, 4, 5, 7, 12]) for _ in range(3)]
+        ext = [rng.randint(1, n[i]) for i in range(3)]
+        if rng.random() < 0.5:
+            ext = [1, 1, 1]
+        st = [rng.choice([0, 0, -1, 2]) for _ in range(3)]
+        lines.append('setup\tf %d %d %d 2 %d %d %d %d %d %d 1 2 3 %d 0 0 %d 1' % (*ext, *st, *n, rng.randint(1, 230), F.NAN_Z))
     return lines
 
 
